@@ -3,6 +3,7 @@
 Every obligation is serialised to SMT-LIB text in the parent (z3 ASTs are not picklable) and checked in a
 worker.  result: 'unsat' = discharged, 'sat' = refuted (model attached), 'unknown' = undecided.
 """
+import itertools
 import multiprocessing as mp
 import os
 import subprocess
@@ -35,12 +36,27 @@ def _model_dict(m, limit=200):
     return out
 
 
+PORTFOLIO = [
+    {'smt.random_seed': 1, 'smt.arith.solver': 2},
+    {'smt.random_seed': 2},
+    {'smt.random_seed': 3, 'smt.qi.eager_threshold': 2.0, 'smt.qi.lazy_threshold': 4.0},
+    {'smt.random_seed': 4, 'smt.arith.solver': 2, 'smt.mbqi': False},
+    {'smt.random_seed': 5, 'smt.mbqi': False},
+    {'smt.random_seed': 6, 'smt.arith.solver': 6},
+    {'smt.random_seed': 7, 'smt.arith.solver': 2, 'smt.qi.eager_threshold': 3.0, 'smt.qi.lazy_threshold': 6.0},
+    {'smt.random_seed': 8, 'smt.case_split': 3},
+]
+
+
 def _check_z3(job):
-    name, smt2, timeout_ms, want_model = job
+    name, smt2, timeout_ms, want_model = job[:4]
+    opts = job[4] if len(job) > 4 else {}
     t0 = time.time()
     try:
         s = z3.Solver()
         s.set('timeout', timeout_ms)
+        for k, v in opts.items():
+            s.set(k, v)
         s.from_string(smt2)
         r = s.check()
         res = str(r)
@@ -95,7 +111,77 @@ def close_pool():
         _pool = None
 
 
-def discharge(vcs, axioms_of, tier='quick', both=False):
+def ground(e, lo, hi, cache=None):
+    """expand integer quantifiers over the finite range [lo, hi] (exact for range-guarded quantifiers)"""
+    if cache is None:
+        cache = {}
+    k = e.get_id()
+    if k in cache:
+        return cache[k]
+    if z3.is_quantifier(e):
+        n = e.num_vars()
+        if not all(e.var_sort(i) == z3.IntSort() for i in range(n)) or e.is_lambda():
+            cache[k] = e          # quantifier over sequences / tuples (structural axiom): left as it is
+            return e
+        insts = []
+        body = e.body()
+        for combo in itertools.product(range(lo, hi + 1), repeat=n):
+            vals = [z3.IntVal(c) for c in combo]
+            b = z3.simplify(z3.substitute_vars(body, *reversed(vals)))
+            if z3.is_true(b) and e.is_forall() or z3.is_false(b) and e.is_exists():
+                continue
+            insts.append(ground(b, lo, hi, cache))
+        r = z3.And(*insts) if e.is_forall() else z3.Or(*insts)
+        if not insts:
+            r = z3.BoolVal(e.is_forall())
+    elif z3.is_app(e) and e.num_args() > 0:
+        ch = [ground(c, lo, hi, cache) for c in e.children()]
+        r = e.decl()(*ch) if any(a.get_id() != b.get_id() for a, b in zip(ch, e.children())) else e
+    else:
+        r = e
+    cache[k] = r
+    return r
+
+
+def _check_ground(job):
+    return _check_z3(job)
+
+
+def ladder_pass(vcs, todo, axioms_of, ladders, timeout_ms=10000):
+    """instance ladder (DESIGN 2.4): an obligation that is not decided is re-asked with size/cost parameters
+    pinned to small constants, smallest first, and every integer quantifier expanded over the finite index
+    range of that instance (quantifier-free query).  A `sat` instance refutes the universally quantified
+    obligation; the model is a concrete (possibly unreachable) state at those sizes."""
+    jobs = []
+    for vc in vcs:
+        if vc.result != 'unknown':
+            continue
+        lad = ladders.get(vc.func) or []
+        for k, inst in enumerate(lad):
+            hi = max(inst.values()) + 2
+            pins = [z3.Int(n) == v for n, v in inst.items()]
+            try:
+                cache = {}
+                hyps = [ground(h, -1, hi, cache) for h in list(vc.hyps) + list(axioms_of.get(vc.func, ()))]
+                goal = ground(vc.goal, -1, hi, cache)
+            except ValueError:
+                continue
+            smt2 = to_smt2(hyps + pins, goal)
+            jobs.append(('%s#%d' % (vc.name, k), smt2, timeout_ms, True))
+    byname = {vc.name: vc for vc in vcs}
+    best = {}
+    for name, res, model, ms, solver, reason in pool().imap_unordered(_check_ground, jobs):
+        vname, k = name.rsplit('#', 1)
+        vc = byname[vname]
+        vc.ms = (vc.ms or 0) + ms
+        if res == 'sat' and (vname not in best or int(k) < best[vname][0]):
+            best[vname] = (int(k), model, solver)
+    for vname, (k, model, solver) in best.items():
+        vc = byname[vname]
+        vc.result, vc.model, vc.ladder, vc.solver = 'sat', model, ladders[vc.func][k], solver + '+ground-instance'
+
+
+def discharge(vcs, axioms_of, tier='quick', both=False, ladders=None):
     """vcs: list of engine.VC ; axioms_of: dict func name -> list of axioms.
     Fills vc.result / vc.model / vc.ms / vc.solver in place."""
     jobs = []
@@ -110,10 +196,35 @@ def discharge(vcs, axioms_of, tier='quick', both=False):
     if not jobs:
         return
     p = pool()
+    first_ms = int(os.environ.get('PYVC_Z3_FIRST_MS', '5000'))
+    jobs = [(n, t, first_ms, m) for n, t, _, m in jobs]
     for name, res, model, ms, solver, reason in p.imap_unordered(_check_z3, jobs):
         vc, _ = todo[name]
         vc.result, vc.model, vc.ms, vc.solver, vc.reason = res, model, ms, solver, reason
-    # second solver: for unknowns always; for everything when `both`
+    # portfolio: the e-matching proofs are sensitive to the solver's internal term order; an obligation that is
+    # not decided quickly is re-tried under several seeds / arithmetic back ends in parallel.  Any `unsat` is a proof.
+    jobs_p = []
+    for name, (vc, smt2) in todo.items():
+        if vc.result == 'unknown':
+            for k, opts in enumerate(PORTFOLIO):
+                jobs_p.append(('%s|%d' % (name, k), smt2, Z3_TIMEOUT_MS, True, opts))
+    open_names = {n for n, (vc, _) in todo.items() if vc.result == 'unknown'}
+    if jobs_p:
+        for pname, res, model, ms, solver, reason in p.imap_unordered(_check_z3, jobs_p):
+            name, k = pname.rsplit('|', 1)
+            vc, _ = todo[name]
+            if vc.result == 'unknown' and res in ('sat', 'unsat'):
+                vc.result, vc.model, vc.solver, vc.reason = res, model, solver + '+portfolio#%s' % k, reason
+                vc.ms = (vc.ms or 0) + ms
+                open_names.discard(name)
+                if not open_names:
+                    break
+        if not open_names:
+            close_pool()          # kill the portfolio members that are still running
+            p = pool()
+    if ladders:
+        ladder_pass(vcs, todo, axioms_of, ladders)
+    # second solver: for remaining unknowns always; for everything when `both`
     jobs2 = []
     for name, (vc, smt2) in todo.items():
         if vc.result == 'unknown' or both:
@@ -124,9 +235,10 @@ def discharge(vcs, axioms_of, tier='quick', both=False):
         if vc.result == 'unknown' and res in ('sat', 'unsat'):
             vc.result, vc.solver = res, solver
             vc.ms = (vc.ms or 0) + ms
-        elif both and res in ('sat', 'unsat') and vc.result in ('sat', 'unsat') and res != vc.result:
-            vc.result = 'unknown'
+        elif both and res in ('sat', 'unsat') and vc.result in ('sat', 'unsat') and res != vc.result \
+                and not getattr(vc, 'ladder', None):
             vc.reason = 'solvers disagree: z3=%s cvc5=%s' % (vc.result, res)
+            vc.result = 'unknown'
 
 
 def check_consistency(hyps_sets, timeout_ms=5000):
